@@ -7,8 +7,8 @@
   * nothing fabricated: the bytes handed out so far are a subsequence of the bytes of the stream
     (`any_sublist_run`);
   * a failure is latched (`any_latched_run`);
-  * `Ok(0)` on a non-empty caller buffer only after a size line that parses to 0 and a line ending
-    (`any_clean_end_run`).
+  * `Ok(0)` on a non-empty caller buffer only after a size line that parses to 0, a trailer section
+    (possibly empty, bounded) and a line ending (`any_clean_end_run`).
   Used by Props/C02u.
 -/
 import Atto.Lemmas.BodyReads
@@ -268,6 +268,99 @@ theorem readLineEnding_flat_adv (is : List Item) (res : RR Bool) (is' : List Ite
     obtain ⟨rfl, rfl⟩ := h
     exact ⟨h1, by simp⟩
 
+theorem stripEol_nil_eol (raw : Bytes) (h : stripEol raw = some []) : EolOK raw := by
+  unfold stripEol at h
+  split at h
+  · rename_i r heq
+    simp only [Option.some.injEq, List.reverse_eq_nil_iff] at h
+    subst h
+    exact .inr (by simpa using congrArg List.reverse heq)
+  · rename_i r _ heq
+    simp only [Option.some.injEq, List.reverse_eq_nil_iff] at h
+    subst h
+    exact .inl (by simpa using congrArg List.reverse heq)
+  · cases h
+
+/-- a trailer section as `skip_trailers` lets it pass: at most `MAX_TRAILER_LINES` `read_line` lines
+    (each ends in LF) whose content is not empty -/
+def TrailerSec (trs : Bytes) : Prop :=
+  ∃ raws : List Bytes, trs = raws.flatten ∧ raws.length ≤ Consts.maxTrailerLines ∧
+    ∀ raw ∈ raws, ∃ t, stripEol raw = some t ∧ t ≠ []
+
+theorem TrailerSec.nil : TrailerSec [] := ⟨[], rfl, Nat.zero_le _, fun _ h => by simp at h⟩
+
+/-- `skip_trailers` on any stream: `Ok(true)` only behind fewer than `k` non-empty lines and an
+    empty line, all read from a clean piece of the stream -/
+theorem skipTrailersLoop_flat_adv (k : Nat) : ∀ (is : List Item) (res : RR Bool) (is' : List Item),
+    skipTrailersLoop flatSrc k is = (res, is') →
+    is' <:+ is ∧ (res = .ok true → ∃ (raws : List Bytes) (eol : Bytes), raws.length < k ∧
+      (∀ raw ∈ raws, ∃ t, stripEol raw = some t ∧ t ≠ []) ∧ EolOK eol ∧
+      Adv is is' (raws.flatten ++ eol)) := by
+  induction k with
+  | zero =>
+    intro is res is' h
+    simp only [skipTrailersLoop, Prod.mk.injEq] at h
+    obtain ⟨rfl, rfl⟩ := h
+    exact ⟨List.suffix_refl _, by simp⟩
+  | succ k ih =>
+    intro is res is' h
+    unfold skipTrailersLoop at h
+    rcases hr : readLine flatSrc is Consts.trailerLineLimit with ⟨r, j⟩
+    obtain ⟨h1, h2⟩ := readLine_flat_adv _ _ _ _ hr
+    rw [hr] at h
+    cases r with
+    | ok line =>
+      obtain ⟨raw, hst, ha⟩ := h2 line rfl
+      simp only at h
+      by_cases hl : line = []
+      · subst hl
+        simp only [if_true, Prod.mk.injEq] at h
+        obtain ⟨rfl, rfl⟩ := h
+        refine ⟨h1, fun _ => ⟨[], raw, Nat.succ_pos _, fun _ hx => by simp at hx,
+          stripEol_nil_eol raw hst, by simpa using ha⟩⟩
+      · simp only [hl, if_false] at h
+        obtain ⟨g1, g2⟩ := ih _ _ _ h
+        refine ⟨g1.trans h1, ?_⟩
+        intro hres
+        obtain ⟨raws, eol, hlen, hall, he, hae⟩ := g2 hres
+        refine ⟨raw :: raws, eol, by simpa using hlen, ?_, he, ?_⟩
+        · intro x hx
+          rcases List.mem_cons.mp hx with rfl | hx
+          · exact ⟨line, hst, hl⟩
+          · exact hall x hx
+        · simpa [List.append_assoc] using ha.trans hae
+    | err e =>
+      simp only [Prod.mk.injEq] at h
+      obtain ⟨rfl, rfl⟩ := h
+      exact ⟨h1, by simp⟩
+    | blocked =>
+      simp only [Prod.mk.injEq] at h
+      obtain ⟨rfl, rfl⟩ := h
+      exact ⟨h1, by simp⟩
+    | panic =>
+      simp only [Prod.mk.injEq] at h
+      obtain ⟨rfl, rfl⟩ := h
+      exact ⟨h1, by simp⟩
+
+/-- what ends a chunk, on any stream: `Ok(true)` only behind a (possibly empty; always empty after a
+    chunk that is not the last) trailer section and a line ending -/
+theorem chunkEnd_flat_adv (last : Bool) (is : List Item) (res : RR Bool) (is' : List Item)
+    (h : chunkEnd flatSrc last is = (res, is')) :
+    is' <:+ is ∧ (res = .ok true → ∃ trs eol, TrailerSec trs ∧ (last = false → trs = []) ∧
+      EolOK eol ∧ Adv is is' (trs ++ eol)) := by
+  unfold chunkEnd at h
+  cases last with
+  | false =>
+    obtain ⟨h1, h2⟩ := readLineEnding_flat_adv _ _ _ (by simpa using h)
+    refine ⟨h1, fun hr => ?_⟩
+    obtain ⟨eol, he, ha⟩ := h2 hr
+    exact ⟨[], eol, TrailerSec.nil, fun _ => rfl, he, by simpa using ha⟩
+  | true =>
+    obtain ⟨h1, h2⟩ := skipTrailersLoop_flat_adv _ _ _ _ (by simpa [skipTrailers] using h)
+    refine ⟨h1, fun hr => ?_⟩
+    obtain ⟨raws, eol, hlen, hall, he, ha⟩ := h2 hr
+    exact ⟨raws.flatten, eol, ⟨raws, rfl, by omega, hall⟩, fun hf => Bool.noConfusion hf, he, ha⟩
+
 /-! ## The refill on any stream -/
 
 theorem readChunkSize_flat_adv (c : Chunked (List Item)) (res : RR Nat) (c' : Chunked (List Item))
@@ -319,17 +412,19 @@ theorem readChunkSize_flat_adv (c : Chunked (List Item)) (res : RR Nat) (c' : Ch
 
 /-- the state after a successful data refill that started at stream position `i0` with `rem0`
     bytes of the chunk outstanding: the buffer holds `min rem0 m` bytes of the stream, and if the
-    chunk is complete its line ending was consumed too -/
+    chunk is complete what ends it (after the last-chunk: the trailer section `trs`; the line
+    ending) was consumed too -/
 def DataOK (i0 : List Item) (rem0 m : Nat) (c' : Chunked (List Item)) : Prop :=
   c'.consumed = 0 ∧ c'.buffer.length = min rem0 m ∧ c'.remaining = rem0 - min rem0 m ∧
   ((c'.remaining ≠ 0 ∧ Adv i0 c'.inner c'.buffer) ∨
-   (c'.remaining = 0 ∧ ∃ eol, EolOK eol ∧ Adv i0 c'.inner (c'.buffer ++ eol)))
+   (c'.remaining = 0 ∧ ∃ trs eol, TrailerSec trs ∧ (c'.reachedEof = false → trs = []) ∧
+      EolOK eol ∧ Adv i0 c'.inner (c'.buffer ++ trs ++ eol)))
 
 theorem DataOK.adv {i0 : List Item} {rem0 m : Nat} {c' : Chunked (List Item)}
     (h : DataOK i0 rem0 m c') : ∃ t, Adv i0 c'.inner (c'.buffer ++ t) := by
-  rcases h.2.2.2 with ⟨_, ha⟩ | ⟨_, eol, _, ha⟩
+  rcases h.2.2.2 with ⟨_, ha⟩ | ⟨_, trs, eol, _, _, _, ha⟩
   · exact ⟨[], by simpa using ha⟩
-  · exact ⟨eol, ha⟩
+  · exact ⟨trs ++ eol, by simpa [List.append_assoc] using ha⟩
 
 theorem refillData_flat_adv (c1 : Chunked (List Item)) (m : Nat) (res : RR Unit)
     (c' : Chunked (List Item)) (h : Chunked.refillData flatSrc c1 m = (res, c')) :
@@ -349,8 +444,8 @@ theorem refillData_flat_adv (c1 : Chunked (List Item)) (m : Nat) (res : RR Unit)
     simp only [hnp, if_false] at h
     by_cases h0 : c1.remaining - bs.length = 0
     · simp only [h0, if_true] at h
-      rcases hle : readLineEnding flatSrc j with ⟨r2, j2⟩
-      obtain ⟨g1, g2⟩ := readLineEnding_flat_adv _ _ _ hle
+      rcases hle : chunkEnd flatSrc c1.reachedEof j with ⟨r2, j2⟩
+      obtain ⟨g1, g2⟩ := chunkEnd_flat_adv _ _ _ _ hle
       rw [hle] at h
       cases r2 with
       | ok b =>
@@ -360,9 +455,10 @@ theorem refillData_flat_adv (c1 : Chunked (List Item)) (m : Nat) (res : RR Unit)
           obtain ⟨rfl, rfl⟩ := h
           refine ⟨g1.trans h1, rfl, ?_⟩
           intro _
-          obtain ⟨eol, he, hae⟩ := g2 rfl
-          refine ⟨rfl, rfl, hl, ?_, .inr ⟨rfl, eol, he, ha.trans hae⟩⟩
-          simp only; omega
+          obtain ⟨trs, eol, ht, htl, he, hae⟩ := g2 rfl
+          refine ⟨rfl, rfl, hl, ?_, .inr ⟨rfl, trs, eol, ht, htl, he, ?_⟩⟩
+          · simp only; omega
+          · simpa [List.append_assoc] using ha.trans hae
         | false =>
           simp only [Prod.mk.injEq] at h
           obtain ⟨rfl, rfl⟩ := h
@@ -607,16 +703,17 @@ theorem any_latched_run (m : Nat) (ns : List Nat) : ∀ (c : Chunked (List Item)
 /-! ## (U3) a clean end needs the terminator -/
 
 /-- the stream really contains, free of errors other than Interrupted ones up to that point, a
-    chunk-size line that parses to 0 followed by a line ending -/
-def Term (rest : List Item) : Prop :=
-  ∃ (pre line eol : Bytes) (post : List Item), Adv rest post (pre ++ line ++ eol) ∧
-    (∃ l, stripEol line = some l ∧ parseChunkSize l = .ok 0) ∧ EolOK eol
+    chunk-size line that parses to 0 followed by a trailer section (possibly empty: at most
+    `MAX_TRAILER_LINES` lines with non-empty content) and a line ending (the empty line) -/
+def TermT (rest : List Item) : Prop :=
+  ∃ (pre line trs eol : Bytes) (post : List Item), Adv rest post (pre ++ line ++ trs ++ eol) ∧
+    (∃ l, stripEol line = some l ∧ parseChunkSize l = .ok 0) ∧ TrailerSec trs ∧ EolOK eol
 
 /-- as long as the decoder has not failed, what it consumed of `rest` is clean (`Adv`), and it
     believes to be at the end only if the terminator was there -/
 def KInv (rest : List Item) (c : Chunked (List Item)) : Prop :=
   c.failed = false →
-    (∃ bs, Adv rest c.inner bs) ∧ (c.reachedEof = true → c.remaining = 0 ∧ Term rest)
+    (∃ bs, Adv rest c.inner bs) ∧ (c.reachedEof = true → c.remaining = 0 ∧ TermT rest)
 
 theorem KInv.fresh (rest : List Item) : KInv rest (fresh rest) :=
   fun _ => ⟨⟨[], Adv.refl _⟩, fun h => by simp [Atto.fresh] at h⟩
@@ -628,22 +725,23 @@ theorem KInv.consume {rest : List Item} {c : Chunked (List Item)} (h : KInv rest
 theorem term_of_zero {rest : List Item} {c c' : Chunked (List Item)} {bs raw l : Bytes} {m : Nat}
     {i1 : List Item} (ha0 : Adv rest c.inner bs) (hst : stripEol raw = some l)
     (hp : parseChunkSize l = .ok 0) (ha : Adv c.inner i1 raw) (hd : DataOK i1 0 m c') :
-    c'.remaining = 0 ∧ Term rest := by
+    c'.remaining = 0 ∧ TermT rest := by
   obtain ⟨_, hlen, hrem, hcase⟩ := hd
   have hb : c'.buffer = [] := List.length_eq_zero_iff.mp (by rw [hlen]; simp)
   have hr0 : c'.remaining = 0 := by rw [hrem]; simp
   refine ⟨hr0, ?_⟩
-  rcases hcase with ⟨hne, _⟩ | ⟨_, eol, he, hae⟩
+  rcases hcase with ⟨hne, _⟩ | ⟨_, trs, eol, ht, _, he, hae⟩
   · exact absurd hr0 hne
   · rw [hb, List.nil_append] at hae
-    exact ⟨bs, raw, eol, c'.inner, (ha0.trans ha).trans hae, ⟨l, hst, hp⟩, he⟩
+    refine ⟨bs, raw, trs, eol, c'.inner, ?_, ⟨l, hst, hp⟩, ht, he⟩
+    simpa [List.append_assoc] using (ha0.trans ha).trans hae
 
 /-- one `read`: the invariant is kept, and `Ok(0)` on a non-empty caller buffer means that the
     terminator is in the stream -/
 theorem read_clean (rest : List Item) (c : Chunked (List Item)) (m n : Nat) (hm : 0 < m)
     (hc : c.consumed ≤ c.buffer.length) (hk : KInv rest c) :
     KInv rest (c.read flatSrc m n).2 ∧
-    (0 < n → (c.read flatSrc m n).1 = .ok [] → Term rest) := by
+    (0 < n → (c.read flatSrc m n).1 = .ok [] → TermT rest) := by
   rcases read_flat_cases c m n hc with ⟨hf, e⟩ | ⟨hf, hcond, e⟩ | ⟨hf, hcond, c', e, hf', hro⟩ |
       ⟨_, _, res, c', e, hb, h1, _⟩
   · rw [e]; exact ⟨hk, by simp⟩
@@ -671,8 +769,8 @@ theorem read_clean (rest : List Item) (c : Chunked (List Item)) (m n : Nat) (hm 
       | false => rfl
       | true => exact absurd ⟨(hke he).1, he⟩ hcond.2
     -- facts about the refilled state
-    have key : (∃ bs', Adv rest c'.inner bs') ∧ (c'.reachedEof = true → c'.remaining = 0 ∧ Term rest) ∧
-        (c'.buffer = [] → Term rest) := by
+    have key : (∃ bs', Adv rest c'.inner bs') ∧ (c'.reachedEof = true → c'.remaining = 0 ∧ TermT rest) ∧
+        (c'.buffer = [] → TermT rest) := by
       rcases hro with ⟨hrem, he', hd⟩ | ⟨hrem, raw, l, sz, i1, hst, hp, ha, he', hd⟩
       · obtain ⟨t, ht⟩ := hd.adv
         refine ⟨⟨_, ha0.trans ht⟩, ?_, ?_⟩
@@ -683,7 +781,7 @@ theorem read_clean (rest : List Item) (c : Chunked (List Item)) (m n : Nat) (hm 
           simp only [List.length_nil] at this
           omega
       · obtain ⟨t, ht⟩ := hd.adv
-        have hz : sz = 0 → c'.remaining = 0 ∧ Term rest := by
+        have hz : sz = 0 → c'.remaining = 0 ∧ TermT rest := by
           intro h0; subst h0; exact term_of_zero ha0 hst hp ha hd
         refine ⟨⟨_, (ha0.trans ha).trans ht⟩, ?_, ?_⟩
         · intro h
@@ -720,7 +818,7 @@ theorem read_clean (rest : List Item) (c : Chunked (List Item)) (m n : Nat) (hm 
 theorem any_clean_end_run (rest : List Item) (m : Nat) (hm : 0 < m) (ns : List Nat) :
     ∀ (c : Chunked (List Item)), c.consumed ≤ c.buffer.length → KInv rest c →
     ∀ i (hi : i < ns.length), 0 < ns[i] → (readsC flatSrc m ns c).1[i]? = some (.ok []) →
-      Term rest := by
+      TermT rest := by
   induction ns with
   | nil => intro c _ _ i hi; simp at hi
   | cons n ns ih =>
@@ -781,15 +879,30 @@ theorem read_fresh_intr (X : List Item) (m n : Nat) :
   subst hfb
   cases r1 <;> rfl
 
+/-- `Ok(0)` is reported by the first read on a last-chunk (with its trailer section, if any) -/
+theorem last_clean_end (last : LastS) (hl : last.WF Consts.chunkSizeLineLimit)
+    (trail : List Item) (m n : Nat) :
+    ((fresh (bytesI last.enc ++ trail)).read flatSrc m n).1 = .ok [] := by
+  have hrep : Rep (fresh (bytesI last.enc ++ trail)) [] (bytesI last.enc ++ trail) := by
+    have := rep_fresh [] (by simp) (bytesI last.enc ++ trail)
+    simpa [encChunks, payloadOf, bytesI] using this
+  exact (step_last _ last hl trail m n hrep).1
+
 /-- `Ok(0)` is reported on `Interrupted, 0 CRLF CRLF`: the decoder does not see the error -/
 theorem intr_then_last_clean_end (last : LastS) (hl : last.WF Consts.chunkSizeLineLimit)
     (trail : List Item) (m n : Nat) :
     ((fresh (.err 0 :: (bytesI last.enc ++ trail))).read flatSrc m n).1 = .ok [] := by
   rw [read_fresh_intr]
-  have hrep : Rep (fresh (bytesI last.enc ++ trail)) [] (bytesI last.enc ++ trail) := by
-    have := rep_fresh [] (by simp) (bytesI last.enc ++ trail)
-    simpa [encChunks, payloadOf, bytesI] using this
-  exact (step_last _ last hl trail m n hrep).1
+  exact last_clean_end last hl trail m n
+
+/-- three consecutive pieces of a list, recovered by their lengths -/
+theorem split3 (pre line eol t : Bytes) :
+    ((pre ++ line ++ eol ++ t).drop pre.length).take line.length = line ∧
+    ((pre ++ line ++ eol ++ t).drop (pre.length + line.length)).take eol.length = eol := by
+  constructor
+  · simp [List.append_assoc]
+  · rw [List.append_assoc, List.append_assoc, ← List.drop_drop]
+    simp
 
 /-! ## Why `0 < maxBuf` is needed for (U3) -/
 
@@ -819,8 +932,8 @@ theorem stripEol_some_mem (raw l : Bytes) (h : stripEol raw = some l) : (10 : UI
   · cases h
 
 /-- the terminator holds two LFs -/
-theorem Term.two_lf {rest : List Item} (h : Term rest) : 2 ≤ (bytesOf rest).count 10 := by
-  obtain ⟨pre, line, eol, post, ha, ⟨l, hst, _⟩, he⟩ := h
+theorem TermT.two_lf {rest : List Item} (h : TermT rest) : 2 ≤ (bytesOf rest).count 10 := by
+  obtain ⟨pre, line, trs, eol, post, ha, ⟨l, hst, _⟩, _, he⟩ := h
   rw [ha.bytesOf_eq]
   simp only [List.count_append]
   have h1 : 1 ≤ line.count 10 := List.one_le_count_iff.mpr (stripEol_some_mem _ _ hst)
@@ -872,7 +985,7 @@ theorem chunked_any_latched_ev :
 
 theorem chunked_any_clean_end_ev (hmb : 0 < maxBuf) :
     let evs := (reads maxBuf ns (Body.new .chunked r1)).1
-    ∀ i (hi : i < ns.length), 0 < ns[i] → evs[i]? = some (.ok []) → Term r1.flat := by
+    ∀ i (hi : i < ns.length), 0 < ns[i] → evs[i]? = some (.ok []) → TermT r1.flat := by
   intro evs
   have he : evs = (readsC flatSrc maxBuf ns (fresh r1.flat)).1.map Ev.ofRR :=
     reads_chunked_flat' r1 hok maxBuf ns
